@@ -100,6 +100,14 @@ func (st *Stream) Pick(xs []string) string {
 	return xs[st.Intn(len(xs))]
 }
 
+// Pick2 picks one of the given ints.
+func (st *Stream) Pick2(xs ...int) int {
+	if len(xs) == 0 {
+		return 0
+	}
+	return xs[st.Intn(len(xs))]
+}
+
 // Perm returns a permutation of 0..n-1.
 func (st *Stream) Perm(n int) []int {
 	p := make([]int, n)
@@ -299,10 +307,22 @@ func WorkerMain(e Engine) int {
 			sc = wrap.Scenario
 		}
 		out("@@START", "0")
-		res, err := SafeExecute(e, sc, prop)
-		if err != nil {
-			out("@@ERROR", fmt.Sprintf("execute: %v", err))
-			return 2
+		// VERIF_REPEAT: for engines with a residual unseeded coin (the runtime's map iteration order)
+		// a scenario is executed up to N times and the first run that shows a violation is reported.
+		repeat, _ := strconv.Atoi(os.Getenv("VERIF_REPEAT"))
+		if repeat < 1 {
+			repeat = 1
+		}
+		var res *Result
+		for k := 0; k < repeat; k++ {
+			res, err = SafeExecute(e, sc, prop)
+			if err != nil {
+				out("@@ERROR", fmt.Sprintf("execute: %v", err))
+				return 2
+			}
+			if len(res.Violations) > 0 {
+				break
+			}
 		}
 		rb, _ := json.Marshal(res)
 		out("@@RESULT", string(rb))
